@@ -448,7 +448,7 @@ __CPROVER_requires(g_copy_calls == 0 && g_raw_calls == 0 && maxvert < INT_MAX)
 __CPROVER_ensures(g_copy_calls == 1 && g_raw_calls == 1 && g_cone_after_copy == 1)
 __CPROVER_ensures(g_cone_vertex == maxvert + 1 && g_maxvert_out == maxvert + 1 && g_cone_value == -3)
 __CPROVER_assigns(g_copy_calls, g_raw_calls, g_cone_vertex, g_cone_after_copy, g_cone_value, g_maxvert_out)
-""", piece={"kind": "slice", "first": r"GUDHI_CHECK\(maxvert <", "last": r"this->insert_simplex_raw\([^;]*\);", "sig": "void ef_cone_point(Vertex_handle maxvert)",
+""", piece={"kind": "slice", "first": r"GUDHI_CHECK\(maxvert <", "last": r"(?=Filtration_value scale =)", "sig": "void ef_cone_point(Vertex_handle maxvert)",
             "epilogue": "g_maxvert_out = maxvert;"},
             subs=[(r"std::numeric_limits<Vertex_handle>::max\(\)", "INT_MAX"), (r"Simplex_tree st_copy = \*this;", "g_copy_calls++;"),
                   (r"this->insert_simplex_raw\(\{(\w+)\}, ([^;]*)\);", r"g_raw_calls++; g_cone_vertex = \1; g_cone_value = \2; g_cone_after_copy = (g_copy_calls == 1);")],
